@@ -568,9 +568,14 @@ def parser_case(draw, **kw):
             c = draw(st.sampled_from(plain))
             if c.get("dtype") in (None, "object") or c["name"] in touched:
                 continue
-            touched.add(c["name"])
             tc = tcs[c["name"]]
-            phys, cells = _rerepresent(draw, tc, c["dtype"])
+            if c["dtype"] not in ACCEPTED_TAGS.get(tc["phys"], []):
+                continue  # (repair did not reach a conforming column: nothing to re-encode)
+            touched.add(c["name"])
+            try:
+                phys, cells = _rerepresent(draw, tc, c["dtype"])
+            except (ValueError, TypeError):
+                phys, cells = tc["phys"], tc["cells"]
             if op == "coerce-bad" and cells:
                 i = draw(st.integers(0, len(cells) - 1))
                 phys, cells = "object", [x if j != i else draw(st.sampled_from(["x", "1.5", "", "nan"])) for j, x in enumerate(
